@@ -144,3 +144,18 @@ def run_case(prop, case, rec, call):
     mon3d._cur["ctx"] = {"file": case["file"], "ops": case["ops"], "model": model}
     n = call(s, model)
     rec.mark_nontrivial(n > 0)
+    # sequence on one Structure3D object: annotate, full 2D analysis (stem centroids,
+    # inter-stem parameters, PyMOL script), annotate again - the second annotation is
+    # judged by the same monitors against the atoms' own x/y/z fields
+    if int(core.chash(case)[:2], 16) % 3 == 0 and len(s.residues) < 900:
+        from rnapolis import annotator, tertiary
+
+        mon3d._cur["ctx"] = {"file": case["file"], "ops": case["ops"], "model": model, "sequence": "annotate, 2D analysis, annotate again"}
+        try:
+            s2d, _ = annotator.extract_secondary_structure(s, model)
+            m = tertiary.Mapping2D3D(s, s2d.baseInteractions.basePairs, s2d.baseInteractions.stackings, False)
+            annotator.generate_pymol_script(m, s2d.stems)
+            tertiary.calculate_all_inter_stem_parameters(m)
+        except Exception:
+            pass
+        call(s, model)
